@@ -356,6 +356,48 @@ def resp_expected(status, es, ops, srvtag):
     return "ok:%d:%s" % (es, ",".join("%s:%s" % (C.hx(n), C.hx(v)) for n, v in fields))
 
 
+def interim_expected(status, ops):
+    """h2_send_1xx: status + every non-blank header, one field per value, leading blanks of a value dropped"""
+    order, ent = [], {}
+    for op, k, v in ops:
+        lk = k.lower()
+        if op == "s":
+            if lk not in ent:
+                order.append(lk)
+                ent[lk] = [k, []]
+            ent[lk][1] = [v]
+            continue
+        if not v:
+            continue
+        if lk not in ent:
+            order.append(lk)
+            ent[lk] = [k, []]
+        vals = ent[lk][1]
+        if not b"".join(vals) and len(vals) <= 1:
+            ent[lk][1] = [v]
+        elif op == "a":
+            vals[-1] = vals[-1] + b", " + v
+        else:
+            vals.append(v)
+    fields = [(b":status", b"%d" % status)]
+    for lk in order:
+        k, vals = ent[lk]
+        if not k or not b"".join(vals):
+            continue
+        for v in vals:
+            v = v.lstrip(b" \t")
+            if v:
+                fields.append((lk, v))
+    return "ok:0:" + ",".join("%s:%s" % (C.hx(n), C.hx(v)) for n, v in fields)
+
+
+def trailers_expected(ops):
+    if not ops or any(k.startswith(b":") for _, k, _ in ops):
+        return "data"
+    fields = [(k.lower(), v.lstrip(b" \t")) for _, k, v in ops if v.lstrip(b" \t")]
+    return "ok:1:" + (",".join("%s:%s" % (C.hx(n), C.hx(v)) for n, v in fields) if fields else "-")
+
+
 def parse_hdr_ops(txt):
     if txt == "-":
         return []
@@ -373,9 +415,14 @@ def oracle_resp(line, out):
     for i, it in enumerate(t[2:]):
         if i >= len(o):
             return "h2_send_headers: missing output"
-        if it[0] == "R":
+        if it[0] in "RIT":
             st, es, ops = it[1:].split("/")
-            exp = resp_expected(int(st), int(es), parse_hdr_ops(ops), srvtag) or "rst"
+            if it[0] == "I":
+                exp = interim_expected(int(st), parse_hdr_ops(ops))
+            elif it[0] == "T":
+                exp = trailers_expected(parse_hdr_ops(ops))
+            else:
+                exp = resp_expected(int(st), int(es), parse_hdr_ops(ops), srvtag) or "rst"
             if o[i] != exp:
                 if o[i].startswith("BADFRAMES"):
                     return "h2_send_hpack: response header block badly framed (%s)" % o[i]
@@ -741,6 +788,17 @@ def rand_request(rng, es):
     return pseudo + hdrs, expect
 
 
+def make_invalid(rng, hdrs):
+    """insert one field http_request_parse_header() must refuse (400); returns (list, its index)"""
+    bad = rng.choice([(b"connection", b"keep-alive"), (b"te", b"gzip"), (b"transfer-encoding", b"chunked"),
+                      (b"X-Upper", b"1"), (b"a b", b"1"), (b":path", b"/late"), (b":foo", b"bar"),
+                      (b"content-length", b"abc"), (b"keep-alive", b"x"), (b"host", b"other.example")])
+    if bad[0] == b"keep-alive":
+        bad = (b"Keep-Alive", b"x")
+    pos = rng.randint(4, len(hdrs))
+    return hdrs[:pos] + [bad] + hdrs[pos:] + [(rand_token(rng, 3, 8), rand_req_value(rng, b"x")) for _ in range(rng.randint(0, 3))], pos
+
+
 def split_frags(rng, blk):
     n = rng.choice([1, 1, 1, 2, 3, 4])
     if n == 1 or len(blk) < 2:
@@ -838,6 +896,7 @@ def gen_req(ctx):
     for _ in range(2500 if ctx.quick else 30000):
         enc = PyEncoder(rng)
         g = PyGlue()
+        maxfield = rng.choice([65535, 65535, 65535, 65535, 400, 150])     # server.max-request-field-size
         items, expect, outs = [], {}, []
         if rng.random() < 0.85:
             items.append("A")
@@ -867,11 +926,25 @@ def gen_req(ctx):
                 es = rng.random() < 0.85
                 hdrs = [(rng.choice([b"x-trailer", b"grpc-status", b"x-checksum"]), rand_req_value(rng, b"x"))
                         for _ in range(rng.randint(0, 3))]
-                keep, exp, bad = 0, None, False
+                keep, exp, bad, refuse = 0, None, False, None
             else:
                 es = rng.random() < 0.75
                 hdrs, exp = rand_request(rng, es)
                 bad = rng.random() < 0.02
+                refuse = None
+                if rng.random() < 0.10:
+                    # a request the header parser refuses half way: the rest of the block is still decoded
+                    hdrs, refuse = make_invalid(rng, hdrs)
+                    exp = ("STATUS", "400")
+                cum = 0
+                for k, (n, v) in enumerate(hdrs):
+                    cum += len(n) + len(v) + 4
+                    if cum > maxfield:
+                        if refuse is None or k <= refuse:
+                            refuse, exp = k, ("STATUS", "431")
+                        break
+                if refuse is not None and rng.random() < 0.3:
+                    bad = True                   # garbage after the refusal point is not looked at
                 keep = int((rng.random() < (0.9 if fill else 0.15)) and len(g.kept) < 8)
                 sid = nid
                 nid += 2
@@ -884,7 +957,7 @@ def gen_req(ctx):
             blk = trial.block(hdrs)
             if bad:
                 blk += rng.choice([b"\xff\xff\xff\xff\xff\xff", b"\x80", b"\x3f\xff\xff\x7f\x82", b"\xff\x7f"])
-            tok, decoded = g.headers(sid, es, int(dep) if dep != "-" else None, keep, not bad)
+            tok, decoded = g.headers(sid, es, int(dep) if dep != "-" else None, keep, not bad or refuse is not None)
             if decoded:
                 enc = trial                  # the peer's encoder state advances only with what lighttpd decodes
             if tok.startswith("new:") and exp is not None:
@@ -894,9 +967,10 @@ def gen_req(ctx):
             elif g.goaway < 0 and g0 == 0:
                 tok += "~"
             outs.append(tok)
-            items.append("%s%d/%d/%s/%s/%s/%d" % (rng.choice("HHh"), sid, es, pad, dep,
-                                                 "+".join(C.hx(f) for f in split_frags(rng, blk)), keep))
-        line = "req 65535 " + " ".join(items)
+            items.append("%s%d/%d/%s/%s/%s/%d%s" % (rng.choice("HHh"), sid, es, pad, dep,
+                                                   "+".join(C.hx(f) for f in split_frags(rng, blk)), keep,
+                                                   "/%d" % refuse if refuse is not None else ""))
+        line = "req %d %s" % (maxfield, " ".join(items))
         REQ_EXPECT[line] = (expect, outs)
         L.append(line)
     return L
@@ -933,6 +1007,10 @@ def oracle_req(line, out):
         if ";v=" not in o[i]:
             return "harness: view missing"
         v = o[i].split(";v=")[1].split("|")
+        if e[0] == "STATUS":
+            if v[0] != e[1]:
+                return "h2 request: a request that must be refused with %s was answered with status %s" % (e[1], v[0])
+            continue
         method, path, host, hdrs = e
         got_h = [] if v[5] == "-" else [tuple(C.unhx(x) for x in f.split(".", 1)[1].split("=")) for f in v[5].split(",")]
         if v[1] != C.hx(method) or v[2] != C.hx(path) or v[3] != C.hx(host) or got_h != hdrs:
@@ -981,6 +1059,23 @@ def gen_resp(ctx):
                 continue
             if r < 0.09:
                 items.append("F%d" % rng.choice([16384, 16385, 20000, 65536, 16777215, 16383 if rng.random() < 0.1 else 32768]))
+                continue
+            if r < 0.14:
+                # interim response (h2_send_1xx) or response trailers: h2_send_headers_block()
+                ops = []
+                for _ in range(rng.choice([0, 1, 2, 4])):
+                    k = rand_case(rng, rng.choice([b"Link", b"Link", b"X-Checksum", b"Grpc-Status", b"ETag", b"X-Early",
+                                                   b"Server-Timing", b"Content-Type"]))
+                    v = rng.choice([b"", b" ", b"  x", b"\t0"]) if rng.random() < 0.15 else \
+                        bytes(rng.choice(b"abcdefghijklmnopqrstuvwxyz0123456789 </>;=.-\"") for _ in range(rng.randint(1, 40))).lstrip() or b"v"
+                    ops.append("%s%s:%s" % (rng.choice("ssi"), C.hx(k), C.hx(v)))
+                if rng.random() < 0.5:
+                    items.append("I%d/0/%s" % (rng.choice([100, 102, 103, 103]), ",".join(ops) if ops else "-"))
+                else:
+                    if ops and rng.random() < 0.08:
+                        ops.insert(rng.randrange(len(ops) + 1), "s%s:%s" % (C.hx(b":status"), C.hx(b"200")))
+                    # (trailer lines are independent: make them all "set")
+                    items.append("T0/1/%s" % (",".join("s" + o[1:] for o in ops) if ops else "-"))
                 continue
             ops = []
             for _ in range(rng.choice([0, 1, 2, 3, 4, 6, 9, 14])):
